@@ -56,6 +56,7 @@ Judge1(e) ==
     ELSE IF L.kind = "pt" /\ \E p \in 1..L.R : \E j \in 1..(L.C + 1) :
                 ExpectedEdge(L, p, j) \notin ToSet(e.edges[p][j])
         THEN "edge_value_differs_from_dense"
+    ELSE IF ~e.same.formula THEN "integer_typed_events_not_converted_as_the_same_numbers_in_double_precision"
     ELSE IF ~e.same.evcoord THEN "origin_event_coordinate_changed"
     ELSE IF ~e.same.masks THEN "masks_changed"
     ELSE IF ~e.same.evmasks THEN "event_masks_changed"
